@@ -10,6 +10,7 @@ package main
 import (
 	"encoding/json"
 	"fmt"
+	"os"
 	"strconv"
 	"strings"
 	"sync"
@@ -66,6 +67,9 @@ func jRender(d *jDesc, ty string) string {
 		b.WriteString("a=group:" + *d.Group + "\r\n")
 	}
 	b.WriteString(jFingerprint)
+	// session-level credentials too: pion takes the media-level ones from the
+	// section the BUNDLE group names first, which hostile groups may not contain
+	b.WriteString("a=ice-ufrag:abcd\r\na=ice-pwd:abcdefghijklmnopqrstuvwx\r\n")
 	setup := "actpass"
 	if ty == "answer" {
 		setup = "active"
@@ -475,6 +479,10 @@ func jsepRun(c jCase) *jLog {
 			e.Status = webrtc.VerifJsepErrClass(err)
 			if err != nil {
 				e.Err = err.Error()
+				if e.Status == "other" && os.Getenv("JSEPA_DEBUG") != "" {
+					b, _ := json.Marshal(e.Op)
+					fmt.Fprintln(os.Stderr, "other error:", op.Op, err, string(b))
+				}
 			}
 		}
 		e.Trs = jSnapshot(pc)
@@ -483,8 +491,30 @@ func jsepRun(c jCase) *jLog {
 	return log
 }
 
-// the observation compared with the model: per peer, per call, one string
-// status|description|transceivers afterwards
+// JSEPA_FULL=1: observations as full strings (slow to read back into Coq; for
+// diagnosis). Default: per call the status and a 55-bit hash of
+// "description|transceivers" (coq: Check/JsepMidRun.v hash_str).
+var jFull = os.Getenv("JSEPA_FULL") != ""
+
+func jRunName(prop string) string {
+	if jFull {
+		return "Check." + prop + ".run_full"
+	}
+	return "Check." + prop + ".run"
+}
+
+func jHash(s string) int64 {
+	const m = 36028797018963913
+	h := uint64(7)
+	for i := 0; i < len(s); i++ {
+		// h < 2^55, so h*131 + c < 2^63
+		h = (h*131 + uint64(s[i])) % m
+	}
+	return int64(h)
+}
+
+// the observation compared with the model: per peer, per call:
+// status, description (when one was generated), transceivers afterwards (when changed)
 func (l *jLog) V() V {
 	out := VL{}
 	for _, peer := range l.Peers {
@@ -505,12 +535,19 @@ func (l *jLog) V() V {
 				trs = append(trs, t.Mid+","+jKindCh(t.Kind)+","+jDirAb(t.Dir))
 			}
 			cur := strings.Join(trs, ";")
+			body := d + "|" + cur
 			if cur == prev {
-				pv = append(pv, VS(e.Status+"|"+d+"|="))
-			} else {
-				pv = append(pv, VS(e.Status+"|"+d+"|"+cur))
+				body = d + "|="
 			}
 			prev = cur
+			switch {
+			case jFull:
+				pv = append(pv, VS(e.Status+"|"+body))
+			case body == "|=":
+				pv = append(pv, VL{VS(e.Status), VZ(0)})
+			default:
+				pv = append(pv, VL{VS(e.Status), VZ(jHash(body))})
+			}
 		}
 		out = append(out, pv)
 	}
@@ -682,7 +719,7 @@ func (g *jGen) newSection(hostile int) jSec {
 	default:
 		s.Kind = "video"
 		if r.Intn(100) < hostile*3 {
-			s.Kind = Pick(r, []string{"text", "message", "image"})
+			s.Kind = Pick(r, []string{"text", "message"})
 		}
 	}
 	if s.Kind != "application" {
